@@ -6,24 +6,34 @@ import trace_abs
 
 TRACE_PROPS = {"C01", "C03", "C04", "C05", "C06", "C07", "C08", "C14"}
 INBOUND = {"C04"}
+CONTENT_PROPS = {"C01", "C17"}
 
 
 def check(ctx, prop, collected):
-    """collected = [(seed, scenario)].  Returns the refusals relevant for `prop` as [(seed, scenario, tokens, index, reason)]"""
+    """collected = [(seed, scenario)].  Every engine that serves `prop` must accept every transcript."""
+    rel = []
+    if prop in TRACE_PROPS:
+        rel += check_engine(ctx, prop, collected, "tracein " if prop in INBOUND else "trace ",
+                            trace_abs.abstract_in if prop in INBOUND else trace_abs.abstract,
+                            "Model/TraceIn.lean" if prop in INBOUND else "Model/Trace.lean")
+    if prop in CONTENT_PROPS:
+        rel += check_engine(ctx, prop, collected, "tracecontent ", trace_abs.abstract_content, "Model/TraceContent.lean", accept_tags=("C17", prop))
+    return rel
+
+
+def check_engine(ctx, prop, collected, cmd, abstract_fn, model_name, accept_tags=None):
     mdrv, mlog = build_mdrv()
     if mdrv is None:
         ctx.ties_broken.append("mdrv does not build: " + mlog[-800:]); return []
     lines = []; keep = []
-    inbound = prop in INBOUND
-    cmd = "tracein " if inbound else "trace "
-    model_name = "Model/TraceIn.lean" if inbound else "Model/Trace.lean"
+    short = cmd.strip()
     for seed, s in collected:
         try:
-            toks, skip = trace_abs.abstract_in(s) if inbound else trace_abs.abstract(s)
+            toks, skip = abstract_fn(s)
         except Exception as e:
             import traceback
             ctx.ties_broken.append("correspondence:trace front end raised on scenario seed %s: %s" % (seed, traceback.format_exc()[-400:])); continue
-        if skip: ctx.count("trace:skipped"); continue
+        if skip: ctx.count(short + ":skipped"); continue
         keep.append((seed, s, toks)); lines.append(cmd + " ".join(toks))
     if not lines: return []
     out, rc, err = run_lines(mdrv, lines)
@@ -37,20 +47,20 @@ def check(ctx, prop, collected):
         if o == "accept": continue
         ws = o.split(" ", 3)
         if ws[0] != "reject":
-            ctx.ties_broken.append(f"correspondence:trace driver answered `{o[:120]}` for scenario seed {seed}"); continue
+            ctx.ties_broken.append(f"correspondence:{short} driver answered `{o[:120]}` for scenario seed {seed}"); continue
         idx = int(ws[1]); reason = ws[3] if len(ws) > 3 else "model ?"
         tag = reason.split()[0]
-        ctx.count("trace:refused:" + tag)
-        if tag == prop or tag == "model":
+        ctx.count(short + ":refused:" + tag)
+        if tag == prop or tag == "model" or (accept_tags and tag in accept_tags):
             rel.append((seed, s, toks, idx, reason))
-    ctx.count("trace:transcripts-replayed-through-composed-model", len(keep))
-    ctx.count("trace:events", nev)
-    for k, v in sorted(kinds.items()): ctx.count("trace:ev:" + k, v)
+    ctx.count(short + ":transcripts-replayed-through-composed-model", len(keep))
+    ctx.count(short + ":events", nev)
+    for k, v in sorted(kinds.items()): ctx.count(short + ":ev:" + k, v)
     if len(out) != len(keep):
-        ctx.ties_broken.append(f"correspondence:trace driver answered {len(out)} of {len(keep)} transcripts (rc={rc}): {err[-300:]}")
+        ctx.ties_broken.append(f"correspondence:{short} driver answered {len(out)} of {len(keep)} transcripts (rc={rc}): {err[-300:]}")
     if rel:
         seed, s, toks, idx, reason = rel[0]
         ctx.ties_broken.append(f"correspondence:composed model ({model_name}) refuses a transcript of the real client at event {idx} `{toks[idx]}`: {reason} [{len(rel)} transcripts; first: scenario seed {seed}]")
-        ctx.notes.append({"trace_refusal": {"scenario_seed": seed, "event_index": idx, "event": toks[idx], "reason": reason,
+        ctx.notes.append({"trace_refusal": {"model": model_name, "scenario_seed": seed, "event_index": idx, "event": toks[idx], "reason": reason,
                                             "events_before": toks[max(0, idx - 40):idx + 1], "script": [l for l, _, _, _ in s.tr]}})
     return rel
